@@ -344,10 +344,26 @@ def r5(ctx, R, g, hs):
             if tg & names and not isinstance(st, (ast.AnnAssign,)) or (isinstance(st, ast.If) and tg & names):
                 out.append(st)
         return out
-    br, bn = restrict_block(ref, cr), restrict_block(ren, cn)
-    norm = lambda sts: [ast.dump(s) for s in sts if not (isinstance(s, ast.Assign) and isinstance(s.value, ast.Call) and "get_definition" in unparse(s.value))]
-    fr = [s for s in br if isinstance(s, (ast.If, ast.Assign)) and ("restrict" in unparse(s) or "type_mem" in unparse(s))]
-    fn_ = [s for s in bn if isinstance(s, (ast.If, ast.Assign)) and ("restrict" in unparse(s) or "type_mem" in unparse(s))]
+    def restrict_slice(f, c):
+        """top-level statements before the search call that its arguments depend on, minus
+        what the resolved entity itself depends on (backward slice over names)"""
+        def back(names):
+            out = []
+            names = set(names)
+            top = next(i for i, st in enumerate(f.node.body) if any(x is c for x in ast.walk(st)))
+            for st in reversed(f.node.body[:top]):
+                tg = {n.id for n in ast.walk(st) if isinstance(n, ast.Name) and isinstance(n.ctx, ast.Store)}
+                if tg & names:
+                    out.append(st)
+                    names |= {n.id for n in ast.walk(st) if isinstance(n, ast.Name) and isinstance(n.ctx, ast.Load)}
+            return list(reversed(out))
+        argn = {n.id for a in list(c.args) + [kw.value for kw in c.keywords] for n in ast.walk(a) if isinstance(n, ast.Name)}
+        ent = c.args[0].id if c.args and isinstance(c.args[0], ast.Name) else None
+        base = {id(s) for s in back({ent})} if ent else set()
+        return [s for s in back(argn) if id(s) not in base]
+    import re as _re
+    norm = lambda sts: [_re.sub(r"__i\d+", "", ast.dump(s)) for s in sts]
+    fr, fn_ = restrict_slice(ref, cr), restrict_slice(ren, cn)
     if fr and norm(fr) == norm(fn_):
         R.ok("C06.R5", ren.short, "same scope restriction as references", loc(ren, fn_[0]), f"{len(fn_)} statements identical")
     else:
@@ -361,12 +377,27 @@ def r5(ctx, R, g, hs):
         for c in mk:
             rng = c.args[1:5]
             txts = [unparse(a) for a in rng]
-            lp = ctx.m.parent.get(ctx.m.enclosing_stmt(c))
-            while lp is not None and not isinstance(lp, ast.For):
-                lp = ctx.m.parent.get(lp)
-            rv = lp.target.id if lp is not None and isinstance(lp.target, ast.Name) else None
-            want = [f"{rv}[0]", f"{rv}[1]", f"{rv}[0]", f"{rv}[2]"]
+            # the binding that hands out one hit: the innermost `for` statement or comprehension
+            # generator around the call; `for ref in hits` or `for line, start, end in hits`
+            tgt = None
+            p_ = ctx.m.parent.get(c)
+            while p_ is not None and tgt is None:
+                if isinstance(p_, (ast.ListComp, ast.SetComp, ast.GeneratorExp, ast.DictComp)):
+                    tgt = p_.generators[-1].target
+                elif isinstance(p_, ast.For) and any(x is c for b in p_.body for x in ast.walk(b)):
+                    tgt = p_.target
+                p_ = ctx.m.parent.get(p_)
+            want = None
+            if isinstance(tgt, ast.Name):
+                rv = tgt.id
+                want = [f"{rv}[0]", f"{rv}[1]", f"{rv}[0]", f"{rv}[2]"]
+            elif isinstance(tgt, (ast.Tuple, ast.List)) and len(tgt.elts) == 3 and all(isinstance(x, ast.Name) for x in tgt.elts):
+                a_, b_, c_ = (x.id for x in tgt.elts)
+                want = [a_, b_, a_, c_]
             prob = []
+            if want is None:
+                R.undecided("C06.R5", f.short, unparse(c)[:80], loc(f, c), "the binding that hands out one hit was not recognised")
+                continue
             if txts != want:
                 prob.append(f"range arguments ({', '.join(txts)}) are not the hit's (line, start, line, end)")
             if maker == "change_json":
